@@ -10,6 +10,7 @@ CONSTANTS
   MaxCount = 1000
   TickSteps = {1, 2, 3}
   MaxTracked = 100
+  SweepCap = 0
   Depth = 16
 INVARIANT Emit
 CHECK_DEADLOCK FALSE
